@@ -111,6 +111,21 @@ TreeRules(S) ==
      \o SFail(\E d \in DOMAIN D : ~parentOK(d), "C04:dotdot-is-not-the-parent")
      \o SFail(\E d \in DOMAIN D : d \notin DOMAIN M \/ M[d].kind # 2, "C04:directory-decoding")
 
+(* link counts: go-nfsd has no LINK, so a file, symlink or other non-directory has exactly one link; a directory has *)
+(* a base count plus one per subdirectory (its '..'); the base (1 in go-nfsd, 2 in POSIX) is read from the root, so *)
+(* the rule states the consistency the property's "'.' and '..' are right" asks for, not a convention. A live     *)
+(* inode with link count 0 makes every request that touches it panic (fstxn.GetInodeInum).                        *)
+LinkRules(S) ==
+  LET D == DMap(S)
+      M == IMap(S)
+      live == Live(S)
+      sub(d) == Cardinality({j \in Ents(D[d]) : D[d].slots[j].inum \in DOMAIN D})
+      base == IF 1 \in DOMAIN D /\ 1 \in DOMAIN M THEN M[1].nlink - sub(1) ELSE 1
+  IN SFail(\E i \in live : M[i].nlink < 1, "C04,C11:live-inode-with-link-count-zero")
+     \o SFail(\E i \in live \ DOMAIN D : M[i].nlink # 1, "C04,C05:link-count-of-a-non-directory-is-not-one")
+     \o SFail(base \notin {1, 2} \/ \E d \in DOMAIN D \cap DOMAIN M : M[d].nlink # base + sub(d),
+              "C04,C05:directory-link-count-differs-from-subdirectories")
+
 NameRules(S) ==
   SFail(\E k \in 1..Len(S.dirs) : LET d == S.dirs[k] IN
           Cardinality({d.slots[j].name : j \in 1..Len(d.slots)}) # Len(d.slots), "C04:duplicate-name")
@@ -147,7 +162,7 @@ AllocRules(S) ==
 StructRules(S) ==
   LET a == LayoutRules(S) \o PtrRules(S) IN
   IF a # <<>> THEN a
-  ELSE SizeRules(S) \o BitmapRules(S) \o TreeRules(S) \o NameRules(S) \o ZeroRules(S) \o IdleRules(S)
+  ELSE SizeRules(S) \o BitmapRules(S) \o TreeRules(S) \o LinkRules(S) \o NameRules(S) \o ZeroRules(S) \o IdleRules(S)
        \o CacheRules(S) \o AllocRules(S)
 
 (* what a failed operation must leave unchanged: everything except the caches' LRU order *)
